@@ -319,7 +319,7 @@ func (wtr *JSONWtr) writeValue(p *node.Path, v val.Value) error {
 			var err error
 			x := item.Value()
 			if sel, ok := x.(node.Selection); ok {
-				wtr := &JSONWtr{Out: wtr._out, Pretty: wtr.Pretty}
+				wtr := &JSONWtr{Out: wtr._out, Pretty: wtr.Pretty, EnumAsIds: wtr.EnumAsIds, QualifyNamespace: wtr.QualifyNamespace}
 				err = sel.InsertInto(wtr.Node())
 				if err != nil {
 					return err
